@@ -10,3 +10,9 @@ import SuxModel.Props.C17
 #print axioms Sux.Func.BL.terminates_of_final_attempt
 #print axioms Sux.Func.BL.never_returns_if_all_transient
 #print axioms Sux.Func.BL.returns_only_if_nontransient
+#print axioms Sux.Func.BL.build_loop_bounded_when_checking_dups
+#print axioms Sux.Func.BL.build_loop_bound_38
+#print axioms Sux.Func.BL.heavy_key_shard
+#print axioms Sux.Func.BL.heavy_key_forces_max_shard_too_big
+#print axioms Sux.Func.BL.heavy_key_gives_duplicate_key_after_33_attempts
+#print axioms Sux.Func.BL.old_loop_never_returns_on_heavy_key
